@@ -544,7 +544,7 @@ impl Check for C11 {
         "C11"
     }
     fn level(&self) -> &'static str {
-        "schedule_sim"
+        "exploration"
     }
     fn technique(&self) -> &'static str {
         "seeded whole-engine simulation of 2-5 parallel actors (tool-envelope runs, provider-driven agent-loop runs, thread-less sessions, background tasks with seeded cancellation) on the real router; start times, work durations, runtime flavour and random holds at the guarded emitter points come from the seed; real execution intervals are taken from begin/end markers appended by the shell commands themselves and from the file-system effects the libc seam observes for in-process tools; oracles: intervals pairwise disjoint, one side-effects frame per mutating call placed between tool end and run end with the changed paths, thread order of those frames = real order; a gated mutation checks that read-only tools are not queued"
